@@ -10,6 +10,8 @@ the self-test next to the sub-agents' hand-written ones).
              -> `K == x` / `K != x`
   cmpswap    `a < b` -> `b > a` (likewise <=, >, >=), single comparisons only
   npfunc     `x.swapaxes(a, b)` / `x.sum(..)` / `x.squeeze(..)` -> np.<name>(x, ..)
+  lastkw     last positional argument of a call to a package function passed
+             by keyword (see LastKw)
   kwreverse  keyword arguments of a call in reverse order when every keyword
              value is a name / constant / attribute (no evaluation-order
              effect) and there is no **kwargs in the call
@@ -131,6 +133,89 @@ class NpFunc(ast.NodeTransformer):
         return c
 
 
+class LastKw(ast.NodeTransformer):
+    """the last positional argument of a call to a function / method of the
+    package is passed by keyword instead: `f(a, b)` -> `f(a, name=b)`.  Only
+    when every definition of that name in the package agrees on the
+    parameter at that position, has no *args, and is not a property /
+    classmethod; calls through a class name (`Cls.m(self, ..)`) and calls
+    with a starred argument are left alone."""
+    INDEX = {}
+    CLASSES = set()
+
+    def __init__(self):
+        self.n = 0
+
+    @classmethod
+    def build_index(cls, root):
+        cls.INDEX, cls.CLASSES = {}, set()
+        for p in glob.glob(os.path.join(root, "**/*.py"), recursive=True):
+            t = ast.parse(open(p).read())
+            for n in ast.walk(t):
+                if isinstance(n, ast.ClassDef):
+                    cls.CLASSES.add(n.name)
+                    for m in n.body:
+                        if isinstance(m, ast.FunctionDef):
+                            cls.INDEX.setdefault(m.name, []).append((m, True))
+            for n in t.body:
+                if isinstance(n, ast.FunctionDef):
+                    cls.INDEX.setdefault(n.name, []).append((n, False))
+
+    def visit_Call(self, c):
+        self.generic_visit(c)
+        if len(c.args) < 2 or any(isinstance(a, ast.Starred)
+                                  for a in c.args):
+            return c
+        if isinstance(c.func, ast.Name):
+            name, via_attr = c.func.id, False
+        elif isinstance(c.func, ast.Attribute):
+            name, via_attr = c.func.attr, True
+            root = c.func.value
+            while isinstance(root, ast.Attribute):
+                root = root.value
+            if isinstance(root, ast.Name) and (
+                    root.id in self.CLASSES or root.id in (
+                        "np", "numpy", "scipy", "math", "copy", "itertools",
+                        "plt", "matplotlib", "re", "os", "super")):
+                return c
+            if isinstance(c.func.value, ast.Call):
+                return c                 # super().m(...), f(x).m(...)
+        else:
+            return c
+        cands = self.INDEX.get(name)
+        if not cands or name.startswith("__"):
+            return c
+        pos = len(c.args) - 1
+        pname = None
+        for fn, is_method in cands:
+            decos = {ast.unparse(d) for d in fn.decorator_list}
+            if decos - {"staticmethod"}:
+                return c
+            if fn.args.vararg is not None or fn.args.posonlyargs:
+                return c
+            params = [a.arg for a in fn.args.args]
+            off = 1 if (is_method and "staticmethod" not in decos) else 0
+            if via_attr != is_method and not (via_attr and not is_method):
+                # a bare-name call of a method name (local alias): skip
+                return c
+            if via_attr and not is_method:
+                off = 0                  # module.function(...)
+            i = pos + off
+            if i >= len(params):
+                return c
+            if pname is None:
+                pname = params[i]
+            elif pname != params[i]:
+                return c
+        if pname is None or any(k.arg == pname for k in c.keywords):
+            return c
+        self.n += 1
+        last = c.args[-1]
+        c.args = c.args[:-1]
+        c.keywords = [ast.keyword(arg=pname, value=last)] + c.keywords
+        return c
+
+
 class KwReverse(ast.NodeTransformer):
     def __init__(self):
         self.n = 0
@@ -147,11 +232,14 @@ class KwReverse(ast.NodeTransformer):
 
 
 MODES = {"rettemp": RetTemp, "ifinvert": IfInvert, "eqswap": EqSwap,
-         "kwreverse": KwReverse, "cmpswap": CmpSwap, "npfunc": NpFunc}
+         "kwreverse": KwReverse, "cmpswap": CmpSwap, "npfunc": NpFunc,
+         "lastkw": LastKw}
 
 
 def main(mode, root_in, root_out):
     total = 0
+    if mode == "lastkw":
+        LastKw.build_index(root_in)
     for p in glob.glob(os.path.join(root_in, "**/*.py"), recursive=True):
         rel = os.path.relpath(p, root_in)
         out = os.path.join(root_out, rel)
